@@ -8,6 +8,13 @@ Groups
               glob, writer.merge(paths) (+ re-opening the directory afterwards):
               rows == concatenation in the given order, count(), partition columns from directory names,
               right categorical label in every row.
+              Label COUNTS that differ between the files (category configurations `nested_*`): label sets that are
+              prefixes of one another with 7/40/90/300, 90/200/200/300 or 200/90/40/7 labels - the counts straddle the
+              int8 (127) code width and their decimal strings sort differently from their values - rows using high
+              codes; additionally the dataset must ANNOUNCE enough categories: max count of the files holding rows <=
+              pf.categories['c'] <= max count of all files, and a categorical column read has no more labels than
+              announced.  (Files whose dictionaries are not prefixes of the dictionary read last: known finding,
+              feature dictionary_conflict.)
   c14.verify  files whose schemas differ (dtype / extra column / renamed column / column order / only the logical or
               converted-type annotation or the repetition of one column: tz-aware vs naive, unit, str vs bytes, ...) must be rejected by
               ParquetFile(paths, verify=True), ParquetFile(dir, verify=True) and merge(paths) (verify_schema=True).
@@ -52,7 +59,22 @@ def categories_for(mode, i):
         return base[i % 3:] + base[:i % 3] if i % 3 else base
     if mode == "prefix_growing":
         return ["a", "b", "c", "d", "e", "f"][:2 + i]
+    if mode in NESTED:
+        return ["L%03d" % j for j in range(NESTED[mode][i])]
     raise KeyError(mode)
+
+
+# label COUNTS per element; the label sets are prefixes of one another.  The counts straddle the int8 code width
+# (127) and their decimal strings sort differently from their values ('90' > '300' > '200', '7' > '40').
+NESTED = {"nested_7_40_90_300": [7, 40, 90, 300], "nested_90_200_200_300": [90, 200, 200, 300],
+          "nested_200_90_40_7": [200, 90, 40, 7]}
+
+
+def code_of(mode, i, q, ncat):
+    """the category code element_frame() gives row q of element i (nested modes: spread over high codes as well)"""
+    if mode in NESTED:
+        return (q * 37 + i + (ncat - 1 if q == 0 else 0)) % ncat
+    return (q + i) % ncat
 
 
 def element_frame(spec, i):
@@ -65,7 +87,7 @@ def element_frame(spec, i):
         "x": (j + 1000 * (i + 1)).astype("int64"),
         "f": f,
         "s": pd.Series([None if q % 4 == 3 else f"e{i}r{q}é" for q in range(n)], dtype="str"),
-        "c": pd.Categorical([cats[(q + i) % len(cats)] for q in range(n)], categories=cats),
+        "c": pd.Categorical([cats[code_of(spec["cats"], i, q, len(cats))] for q in range(n)], categories=cats),
     })
     if spec["shape"] == "subds":
         df["p"] = (j % 2 + 1).astype("int64")
@@ -239,6 +261,16 @@ def check_many(fastparquet, spec):
             if not cell_eq(out["c"].iloc[j], df["c"].iloc[pos]):
                 return (f"categorical label of row x={x} (file {path[len(root):]}): read {out['c'].iloc[j]!r}, "
                         f"file holds {df['c'].iloc[pos]!r}")
+        # ---- announced number of categories (metadata) vs the files' label counts ---------------------
+        counts_all = [len(categories_for(spec["cats"], i)) for i in range(spec["k"])]
+        counts_rows = [len(categories_for(spec["cats"], i)) for i in range(spec["k"]) if any(u[0] == i and len(u[2]) for u in units)]
+        if counts_rows and isinstance(out["c"].dtype, pd.CategoricalDtype):
+            ann = pf.categories.get("c") if isinstance(pf.categories, dict) else None
+            if not isinstance(ann, (int, np.integer)) or not (max(counts_rows) <= int(ann) <= max(counts_all)):
+                return (f"pf.categories announces {ann!r} categories for column c; the files holding rows carry "
+                        f"{counts_rows} labels (all files: {counts_all})")
+            if len(out["c"].cat.categories) > int(ann):
+                return f"column c read with {len(out['c'].cat.categories)} labels, {ann} announced"
         segs = {}
         for ui, u in enumerate(units):
             if len(u[2]):
@@ -397,6 +429,22 @@ def enumerate_concat(tier):
                 n += 1
                 yield {"shape": "flat", "k": k, "open": op, "root": "inferred", "cats": cats,
                        "rows": rows_modes[n % 4], "codec_off": n % 5}
+    # label counts that differ between the files and straddle a code-width boundary (nested label sets)
+    for mi, cats in enumerate(NESTED):
+        for k in (2, 3, 4):
+            for op in OPENS:
+                n += 1
+                yield {"shape": "flat", "k": k, "open": op, "root": "inferred", "cats": cats,
+                       "rows": ["mixed", "big", "ones", "zero_first"][(n + mi) % 4], "codec_off": n % 5}
+        for si, shape in enumerate(("hive1", "flatnum", "subds", "drill")):
+            for op in OPENS:
+                if op == "list_pf" and shape == "subds":
+                    continue
+                if tier == "quick" and (si + mi + OPENS.index(op)) % 2:
+                    continue
+                n += 1
+                yield {"shape": shape, "k": 4, "open": op, "root": ["inferred", "given"][(n + si) % 2] if op != "dir" else "inferred",
+                       "cats": cats, "rows": ["mixed", "big", "ones"][n % 3], "codec_off": n % 5}
     # every shape x k x open x root; the rest rotates
     for shape in SHAPES:
         for k in (1, 2, 3, 4):
@@ -429,7 +477,7 @@ def dictionary_conflict(spec):
     for i in idx:
         cats = categories_for(spec["cats"], i)
         for q in range(ROWS[spec["rows"]][i]):
-            code = (q + i) % len(cats)          # the code element_frame() gives row q of element i
+            code = code_of(spec["cats"], i, q, len(cats))
             if code >= len(last) or last[code] != cats[code]:
                 return True
     return False
@@ -536,7 +584,10 @@ def run_bounded(ctx):
                       "float64+NaN, str+None, categorical; shapes flat / flat with part.<n> names whose given order (2,10,9,100) is neither "
                       "the lexicographic order nor its reverse / k=v / a=v/b=w / u/x (drill) / sub-datasets; rows per "
                       "file from 6 patterns incl. 0 first/middle/last/all; codecs rotate over none/GZIP/SNAPPY/ZSTD/LZ4; "
-                      "category sets same / disjoint / permuted / growing prefix; opened via list, reversed list, "
+                      "category sets same / disjoint / permuted / growing prefix / NESTED prefixes with label counts "
+                      "7,40,90,300 | 90,200,200,300 | 200,90,40,7 (straddling the int8 code width, decimal strings ordered "
+                      "unlike the values, rows using the highest code; full cross k{2,3,4} x open on the flat shape, k=4 on "
+                      "hive1 / part.<n> / sub-datasets / drill) with the announced number of categories checked; opened via list, reversed list, "
                       "list+verify, list of ParquetFile objects, directory, glob, merge(), merge()+reopen; root given or "
                       "inferred; flat shape: full cross k{2,3,4} x open x category configuration")
     ctx.bounded_group(GV, rule="16 schema differences: 6 structural (dtype, int width, extra / missing / renamed column, column order) + 10 "
